@@ -176,8 +176,16 @@ pub fn generate(r: &mut Rng, contradictory: bool) -> Generated {
                 match truths[c].clone() {
                     Truth::Word { width, usage } => {
                         let u = *r.pick(&below(usage));
+                        // "Width dropped" is a weakening for every usage,
+                        // also for those with an intrinsic size.
                         let w = match u.size() {
-                            Some(fixed) => Some(fixed),
+                            Some(fixed) => {
+                                if r.chance(2, 3) {
+                                    Some(fixed)
+                                } else {
+                                    None
+                                }
+                            }
                             None => {
                                 if r.chance(1, 2) {
                                     width
